@@ -62,6 +62,17 @@ def _ctor_calls(sx: SCtx):
     return out
 
 
+def ctor_kwargs(repo, a) -> dict:
+    """arguments of a Table constructor call term by parameter name of Table.__init__, however they were passed"""
+    names = A.params(repo.method("Table", "__init__"))[1:]
+    out = {}
+    for n, v in zip(names, a[2]):
+        out[n] = v
+    for k, v in a[3]:
+        out[k] = v
+    return out
+
+
 def _table_methods(repo):
     m = repo.module("table")
     for cname, c in m.classes.items():
@@ -348,7 +359,7 @@ def _index_forced(col, rule="C14.R3"):
     for meth in ("_select", "_select_rows", "_select_cols", "_copy"):
         sx = tctx(repo, meth)
         calls = _ctor_calls(sx)
-        ok = bool(calls) and all(dict(a[3]).get("index") == INDEX for ev, a in calls)
+        ok = bool(calls) and all(ctor_kwargs(repo, a).get("index") == INDEX for ev, a in calls)
         col.add(rule, f"Table.{meth}#same-index", ok, sx.loc(sx.fn), "a derived table keeps the source's index column name", "")
 
 
